@@ -1,7 +1,7 @@
 #!/bin/sh
 # one-time setup after a fresh restore: build the harness from files on disk only (offline)
 set -e
-. /verif/scripts/env.sh
-mkdir -p /verif/.gocache /verif/.work /verif/bin /verif/evidence /verif/replays
-sh /verif/scripts/build.sh
+. "$(dirname "$0")/env.sh"
+mkdir -p /verif/.gocache $VERIF_ROOT/.work $VERIF_ROOT/bin $VERIF_ROOT/evidence $VERIF_ROOT/replays
+sh "$VERIF_ROOT/scripts/build.sh"
 echo setup ok
